@@ -108,7 +108,7 @@ def run(rep, repo, tier):
                "output value set %r is not contained in the declared code "
                "set %r (%s); forward normal form %s" %
                (got, want, txt, show(f, 300)),
-               loc=b.pe.loc_of(b.term), instance=cfg,
+               loc=b.pe.loc_of(b.term), instance=cfg, observed=repr(got),
                facts={"config": cfg, "got": repr(got), "want": repr(want),
                       "forward": show(f, 600)})
     card_ok = oracle.card_bound(got, bits) or (ok and oracle.card_bound(
@@ -161,6 +161,8 @@ def run(rep, repo, tier):
                 "does-not-enclose",
                 "min()=%s max()=%s do not enclose outputs in [%s, %s]" %
                 (mn, mx, lo, hi), instance=cfg,
+                observed="min()=%s max()=%s outputs [%s, %s]" % (mn, mx, lo,
+                                                                 hi),
                 facts={"config": cfg, "min": str(mn), "max": str(mx),
                        "out_lo": str(lo), "out_hi": str(hi)})
     # R4 range() enumerates exactly the reachable set
@@ -181,6 +183,7 @@ def run(rep, repo, tier):
                   ([str(v) for v in vals[:10]], "..." if len(vals) > 10
                    else "", [str(v) for v in want_r[:10]],
                    "..." if len(want_r) > 10 else ""), instance=cfg,
+                  observed="range() = %s" % [str(v) for v in vals],
                   loc=pe_r.repo.module(quant.QMOD).loc(
                       mod.classes[cls].find_method("range")[1]))
   rep.extra["configuration_points"] = npoints
